@@ -2,6 +2,7 @@
 //! real crates. Every call returns a projected outcome (see out.rs).
 
 pub mod common;
+pub mod elf;
 pub mod info;
 pub mod sweep;
 
